@@ -6,6 +6,9 @@ from vlib.agp import Run, best_of, swallowed_exception_is_float_resolution
 from vlib.runner import fail, hyp_run
 
 LEVEL = "exploration"
+RULE_EXTRA = (" A third of the generated cases also call DoLocalRefinement(3) after one of the batches (the global "
+              "trials before and after it must still be the reference prefix) and/or repeat a 25-trial run with the solver's "
+              "default parameters around the creation of another default-parameter solver of dimension 1..7.")
 RULE = ("Differential, real solver against real solver. Reference = one solver driven by a single "
         "DoGlobalIteration(K); n* = stopping index of a plain Solve(). (a) exhaustive: for Hypothesis-drawn "
         "problems with itersLimit<=10 EVERY composition of every total 1..10 into DoGlobalIteration batches, "
@@ -14,6 +17,7 @@ RULE = ("Differential, real solver against real solver. Reference = one solver d
         "the whole recipe repeated. Problems: generated objectives (N=1..5) and shipped benchmarks (Hill, Shekel, "
         "Rastrigin, XSquared, GKLS). Non-trivial: at least two batches of different sizes; both totals below and "
         "above n* are reported in the class histogram. Distinct = distinct (problem, parameters, composition).")
+RULE = RULE + RULE_EXTRA
 ASSUMPTIONS = [
     "equality is bit for bit on evaluation points and values, on the best trial, trial count and accuracy",
     "a batch that overshoots into float-resolution exhaustion (the method's own 'x is outside of interval' error) "
